@@ -247,6 +247,8 @@ def nested_values(tier):
     for d in depths:
         out.append(wrap({'': 1}, d, 'list'))
         out.append(wrap({b'': 1}, d, 'mixed'))
+    # large values: long containers, long strings, wide and deep mixtures
+    out.extend(common.large_values())
     return out
 
 
